@@ -69,6 +69,23 @@ const c09Builtins = `
 {'<a b>'|escapeHtml}{'a b&c'|escapeUri}{'it\'s'|escapeJsString}{'a\nb'|changeNewlineToBr}{'abcdefghij'|insertWordBreaks:3}{'abcdefghij'|truncate:5}{['k': [1, 'x']]|json}{'<i>'|noAutoescape}{'<i>'|id}
 {css base}{msg desc="d"}Hello <b>{randomInt(1)}</b>{/msg}
 {/template}
+
+/**
+ * @param opts
+ * @param? more
+ */
+{template .zzShared}
+{call .zzEcho data="$opts ?: [:]"}{param x: 1 /}{/call}
+{call .zzEcho data="$more ? $more : $opts"}{param x}two{/param}{/call}
+{call .zzEcho data="$opts"}{param y: 3 /}{/call}
+{call .zzEcho data="all"}{param x: $opts.y /}{/call}
+{/template}
+
+/**
+ * @param? x
+ * @param? y
+ */
+{template .zzEcho}[{$x ?: ''}|{$y ?: ''}]{/template}
 `
 
 func runC09(c C09Case, rounds int, rec *recorder) error {
@@ -79,6 +96,8 @@ func runC09(c C09Case, rounds int, rec *recorder) error {
 			c.Prog.AllData = map[string]map[string]ref.Value{}
 		}
 		c.Prog.AllData[c.Prog.Prog.Files[0].Namespace+".zzBuiltins"] = nil
+		// (one data map, with a nested map, shared by every goroutine that renders this template)
+		c.Prog.AllData[c.Prog.Prog.Files[0].Namespace+".zzShared"] = map[string]ref.Value{"opts": ref.M(map[string]ref.Value{"y": ref.S("why")})}
 	}
 	cb, err, pn := compileBundle(names, srcs, c.Prog.Prog.Globals)
 	if err != nil || pn != nil {
